@@ -380,17 +380,17 @@ fn diff(a: &Snap, b: &Snap) -> (Vec<&'static str>, String) {
     if a.local != b.local {
         c.insert("local_description");
         d.push(format!(
-            "local_description {:?} -> {:?}",
-            a.local.as_ref().map(|x| (x.0.as_str(), vh::fnv1a(x.1.as_bytes()))),
-            b.local.as_ref().map(|x| (x.0.as_str(), vh::fnv1a(x.1.as_bytes())))
+            "local_description {:?} -> {:?} (type or text differs)",
+            a.local.as_ref().map(|x| x.0.as_str()),
+            b.local.as_ref().map(|x| x.0.as_str())
         ));
     }
     if a.remote != b.remote {
         c.insert("remote_description");
         d.push(format!(
-            "remote_description {:?} -> {:?}",
-            a.remote.as_ref().map(|x| (x.0.as_str(), vh::fnv1a(x.1.as_bytes()))),
-            b.remote.as_ref().map(|x| (x.0.as_str(), vh::fnv1a(x.1.as_bytes())))
+            "remote_description {:?} -> {:?} (type or text differs)",
+            a.remote.as_ref().map(|x| x.0.as_str()),
+            b.remote.as_ref().map(|x| x.0.as_str())
         ));
     }
     if a.trs.len() != b.trs.len() {
